@@ -434,6 +434,101 @@ pub fn c16(out: &mut Out) {
     out.bounded("C16/content of aggregated pattern subscriptions against a plain subscription of the same pattern (real Proto + core task + aggregator task)", "5 histories over 4 keys (repeats, set/delete alternation, bursts, pdelete of several keys) x {no pause, a pause longer than the interval after every 2nd request, a client channel of capacity 1}; interval 20 ms; the delay bound is NOT checked", n, n);
 }
 
+/// C07 over a real unix socket: however the session ends - clean close, a request the server answers by ending the session,
+/// garbage - the server runs the session-end work (the registered grave goods are buried, the last will is published)
+pub fn c07_socket(out: &mut Out) {
+    use std::time::Duration;
+    use tokio::io::{AsyncBufReadExt, AsyncWriteExt, BufReader};
+    use tokio::net::UnixStream;
+    use tokio::time::{sleep, timeout};
+    let rt = tokio::runtime::Builder::new_multi_thread().worker_threads(4).enable_all().build().expect("runtime");
+    let dir = std::env::temp_dir().join(format!("wb-rac-c07-{}", std::process::id()));
+    std::fs::create_dir_all(&dir).ok();
+    let socket_path = dir.join("wb.socket");
+    std::fs::remove_file(&socket_path).ok();
+    let sp = socket_path.clone();
+    let endings: [(&str, &[u8]); 4] = [("clean close", b""), ("protocolSwitchRequest for an unsupported version", b"{\"protocolSwitchRequest\":{\"version\":99}}\n"),
+        ("a line that is not JSON", b"{not json}\n"), ("a second authorizationRequest-like unknown message", b"{\"authorizationRequest\":{\"authToken\":\"x\"}}\n")];
+    let n = endings.len();
+    let res: Result<Vec<Value>, String> = rt.block_on(async move {
+        let mut config = worterbuch::Config::new(None).await.map_err(|e| format!("{e:?}"))?;
+        config.ws_endpoint = None;
+        config.tcp_endpoint = None;
+        config.ws_disabled = true;
+        config.tcp_disabled = true;
+        config.unix_disabled = false;
+        config.unix_endpoint = Some(worterbuch::UnixEndpoint { path: sp.clone() });
+        config.use_persistence = false;
+        config.leader = false;
+        config.follower = false;
+        config.auth_token_key = None;
+        let server = tokio::spawn(tosub::build_root("rac-c07").start(move |s| worterbuch::run_worterbuch(s, config)));
+        let step = Duration::from_secs(20);
+        type Rd = tokio::io::Lines<BufReader<tokio::net::unix::OwnedReadHalf>>;
+        async fn connect(p: &std::path::Path, step: Duration) -> Result<(Rd, tokio::net::unix::OwnedWriteHalf, String), String> {
+            let stream = timeout(step, async { loop { match UnixStream::connect(p).await { Ok(s) => break s, Err(_) => sleep(Duration::from_millis(50)).await } } }).await.map_err(|_| "server does not accept connections".to_owned())?;
+            let (rx, tx) = stream.into_split();
+            let mut lines = BufReader::new(rx).lines();
+            let w = timeout(step, lines.next_line()).await.map_err(|_| "no welcome".to_owned())?.map_err(|e| e.to_string())?.unwrap_or_default();
+            let v: Value = serde_json::from_str(&w).map_err(|e| e.to_string())?;
+            let id = v["welcome"]["clientId"].as_str().ok_or("no client id in the welcome message")?.to_owned();
+            Ok((lines, tx, id))
+        }
+        async fn ask(rd: &mut Rd, wr: &mut tokio::net::unix::OwnedWriteHalf, line: String, tid: u64, step: Duration) -> Option<Value> {
+            timeout(step, wr.write_all(format!("{line}\n").as_bytes())).await.ok()?.ok()?;
+            for _ in 0..200 {
+                match timeout(step, rd.next_line()).await {
+                    Ok(Ok(Some(l))) => { if let Ok(v) = serde_json::from_str::<Value>(&l) { if v.as_object().and_then(|o| o.values().next()).and_then(|b| b["transactionId"].as_u64()) == Some(tid) { return Some(v); } } }
+                    _ => return None,
+                }
+            }
+            None
+        }
+        let (mut ord, mut owr, _oid) = connect(&sp, step).await?;
+        let mut problems = vec![];
+        for (i, (how, last_bytes)) in endings.iter().enumerate() {
+            let key = format!("c07s/{i}/doomed");
+            let will = format!("c07s/{i}/will");
+            let (mut vrd, mut vwr, vid) = connect(&sp, step).await?;
+            let mut tid = 0u64;
+            for line in [json!({"set": {"transactionId": 1, "key": key, "value": 1}}),
+                         json!({"set": {"transactionId": 2, "key": format!("$SYS/clients/{vid}/graveGoods"), "value": [format!("c07s/{i}/#")]}}),
+                         json!({"set": {"transactionId": 3, "key": format!("$SYS/clients/{vid}/lastWill"), "value": [{"key": will, "value": "gone"}]}})] {
+                tid += 1;
+                match ask(&mut vrd, &mut vwr, line.to_string(), tid, step).await {
+                    Some(v) if v.get("ack").is_some() => {}
+                    o => problems.push(json!({"ending": how, "problem": "set-up request of the victim session not acknowledged", "got": format!("{o:?}")})),
+                }
+            }
+            if !last_bytes.is_empty() { let _ = vwr.write_all(last_bytes).await; sleep(Duration::from_millis(100)).await; }
+            drop(vwr); drop(vrd);
+            // the observer polls (up to 10 s) until the session-end work is visible
+            let mut done = false;
+            for round in 0..100u64 {
+                sleep(Duration::from_millis(100)).await;
+                let t1 = 1000 + (i as u64) * 1000 + round * 2;
+                let g = ask(&mut ord, &mut owr, json!({"get": {"transactionId": t1, "key": key}}).to_string(), t1, step).await;
+                let w = ask(&mut ord, &mut owr, json!({"get": {"transactionId": t1 + 1, "key": will}}).to_string(), t1 + 1, step).await;
+                let buried = g.as_ref().map(|v| v.get("err").is_some()).unwrap_or(false);
+                let published = w.as_ref().map(|v| v["state"]["value"] == json!("gone")).unwrap_or(false);
+                if buried && published { done = true; break; }
+                if server.is_finished() { break; }
+            }
+            if !done { problems.push(json!({"ending": how, "problem": "10 s after the session ended its grave goods are not buried / its last will is not published", "server_finished": server.is_finished()})); }
+        }
+        server.abort();
+        Ok(problems)
+    });
+    std::fs::remove_file(&socket_path).ok();
+    match res {
+        Err(e) => out.report("C07/real server over a unix socket starts", Some("UNLISTED"), json!({"error": e})),
+        Ok(problems) => for p in problems {
+            out.report("C07/however a unix-socket session ends, the session-end work is done (real server)", Some("UNLISTED"), p);
+        },
+    }
+    out.bounded("C07/session end over a real unix socket", "4 ways of ending a session (clean close, unsupported protocol switch, non-JSON line, unexpected authorization request), grave goods + last will observed by a second session within 10 s", n, n);
+}
+
 fn token(secret: &str, claims: Value) -> String {
     use jsonwebtoken::{EncodingKey, Header, encode};
     encode(&Header::default(), &claims, &EncodingKey::from_secret(secret.as_bytes())).expect("jwt")
